@@ -16,7 +16,7 @@ type Action struct {
 	Op  string // e: emit N entries silently (lost pushes) | p: push a container of entries IDs |
 	N   int    // T: push updatesTooLong | CT: push updateChannelTooLong(C, server pts) | W: wait out the gap timer |
 	IDs []int  // sl/csl: slice size N for common/channel differences | TL / CTL: next (channel C) difference answers tooLong
-	C   int64
+	C   int64  // K: the client learns the access hash of channel C
 }
 
 func (a Action) String() string {
@@ -47,7 +47,7 @@ func (a Action) String() string {
 			k = 2 + a.C
 		}
 		return "ERR:" + strconv.FormatInt(k, 10)
-	case "CT", "CTL", "z":
+	case "CT", "CTL", "z", "K":
 		return a.Op + ":" + strconv.FormatInt(a.C, 10)
 	}
 	return a.Op
@@ -55,34 +55,71 @@ func (a Action) String() string {
 
 // Scenario = initial persisted state + server log + schedule.
 type Scenario struct {
-	P0, Q0  int
-	C0      map[int64]int
-	Log     []Entry
-	Actions []Action
+	P0, Q0 int
+	C0     map[int64]int // every channel of the scenario: where its part of the log starts
+	// Fresh: channels without stored state at the start (C0 is then only the log's origin).
+	// Late: channels whose access hash is unknown until an action K.
+	Fresh, Late map[int64]bool
+	Log         []Entry
+	Actions     []Action
 	// Final recovery (updatesTooLong + updateChannelTooLong for every channel, twice) is always appended.
 }
 
-// Line renders the scenario as one request line for the model driver.
-func (s Scenario) Line(op string) string {
-	var cs []string
-	for _, c := range NewWorld(nil, 0, 0, s.C0).Channels() {
-		cs = append(cs, fmt.Sprintf("%d=%d", c, s.C0[c]))
+func (s Scenario) channels() []int64 { return NewWorld(nil, 0, 0, s.C0).Channels() }
+
+// storedWord renders persisted channel state for the model: `5=5` or, for a channel whose access
+// hash is unknown (until K), `5^5`.
+func storedWord(chans map[int64]int, late func(int64) bool) string {
+	var cs []int64
+	for c := range chans {
+		cs = append(cs, c)
 	}
-	if len(cs) == 0 {
-		cs = []string{"_"}
+	sort.Slice(cs, func(i, j int) bool { return cs[i] < cs[j] })
+	var p []string
+	for _, c := range cs {
+		sep := "="
+		if late(c) {
+			sep = "^"
+		}
+		p = append(p, fmt.Sprintf("%d%s%d", c, sep, chans[c]))
 	}
-	var ls []string
-	for _, e := range s.Log {
-		ls = append(ls, e.String())
+	if len(p) == 0 {
+		return "_"
 	}
-	if len(ls) == 0 {
-		ls = []string{"_"}
+	return strings.Join(p, ",")
+}
+
+// createdWord renders the channels met during a run: `11~7` (`11^7` if the hash was unknown at the start).
+func createdWord(created map[int64]int, late func(int64) bool) string {
+	return strings.NewReplacer("=", "~").Replace(storedWord(created, late))
+}
+
+// Line renders the scenario as one request line for the model driver: origin, stored channels,
+// channels met during the run (as observed by the harness in world w), log, actions.
+func (s Scenario) Line(op string, w *World) string {
+	stored := map[int64]int{}
+	for c, p := range s.C0 {
+		if !s.Fresh[c] {
+			stored[c] = p
+		}
+	}
+	created := map[int64]int{}
+	if w != nil {
+		created = w.Created
+	}
+	late := func(c int64) bool { return s.Late[c] }
+	cr := createdWord(created, late)
+	for _, c := range s.channels() { // never met with a known access hash
+		if _, met := created[c]; s.Fresh[c] && s.Late[c] && !met {
+			cr = strings.TrimPrefix(cr+fmt.Sprintf(",%d!", c), "_,")
+		}
 	}
 	as := make([]string, len(s.Actions))
 	for i, a := range s.Actions {
 		as[i] = a.String()
 	}
-	return strings.TrimSpace(fmt.Sprintf("%s %d %d %s %s %s", op, s.P0, s.Q0, strings.Join(cs, ","), strings.Join(ls, ","), strings.Join(as, " ")))
+	return strings.TrimSpace(fmt.Sprintf("%s %d %d %s %s %s %s %s", op, s.P0, s.Q0, chanWords(s), storedWord(stored, late), cr,
+		logWords(s), strings.Join(as, " ")))
 }
 
 // Outcome of running a scenario on the implementation.
@@ -96,15 +133,36 @@ type Outcome struct {
 	Elapsed time.Duration
 	Retries int
 	Dead    []int64 // channel workers that stopped during the run
+	// Workers: set when the channels the manager started workers for are not the ones that were
+	// loaded at the start or met with a known access hash
+	Workers string
 }
 
-// tracked: the entry belongs to a sequence the manager tracks (or has no sequence).
+// tracked: the entry belongs to a sequence the manager tracks (or has no sequence). A channel is
+// tracked once it has a worker: loaded at the start, or met (with a known access hash) later.
 func (w *World) tracked(en Entry) bool {
 	if en.Kind == KChMsg || en.Kind == KChOther || en.Kind == KChAff {
-		_, ok := w.C0[en.Chan]
-		return ok
+		return w.live[en.Chan]
 	}
 	return true
+}
+
+// baseOf: where the client's view of a sequence starts in a run started from `from`.
+func baseOf(w *World, from Snapshot, seq string) int {
+	switch seq {
+	case "pts":
+		return from.State.Pts
+	case "qts":
+		return from.State.Qts
+	}
+	c, _ := strconv.ParseInt(seq[1:], 10, 64)
+	if p, ok := from.Chans[c]; ok {
+		return p
+	}
+	if p, ok := w.Created[c]; ok {
+		return p
+	}
+	return initialOf(w, seq)
 }
 
 func (w *World) entry(id int) (Entry, int, bool) {
@@ -126,12 +184,15 @@ func (e *Env) apply(a Action) {
 	case "p":
 		var us []tg.UpdateClass
 		w.mu.Lock()
+		var container []Entry
 		for _, id := range a.IDs {
 			if en, idx, ok := w.entry(id); ok {
 				us = append(us, en.Update())
+				container = append(container, en)
 				w.Emitted = max(w.Emitted, idx+1)
 			}
 		}
+		w.contact(container, "push")
 		w.mu.Unlock()
 		if len(us) == 1 && a.IDs[0]%2 == 0 {
 			e.Push(&tg.UpdateShort{Update: us[0], Date: 0})
@@ -156,6 +217,10 @@ func (e *Env) apply(a Action) {
 		}
 		w.mu.Unlock()
 		e.Affected(a.C, p, 0)
+	case "K": // the client learns the channel's access hash (from some other request)
+		w.mu.Lock()
+		w.Known[a.C] = true
+		w.mu.Unlock()
 	case "ERR": // the next difference request of the sequence fails with a transient RPC error
 		w.mu.Lock()
 		if a.C == 0 {
@@ -184,7 +249,12 @@ func (e *Env) apply(a Action) {
 		// If this difference will forward foreign updates, the worker hands them over with sendOut,
 		// whose drain may swallow anything queued behind it — also a harness barrier. Wait until the
 		// answer has been served (from then on chanBarrier waits for the worker to finish it).
-		e.waitExtrasServed("c" + strconv.FormatInt(a.C, 10))
+		w.mu.Lock()
+		started := w.Started[a.C]
+		w.mu.Unlock()
+		if started { // a channel without a worker ignores the update and asks for nothing
+			e.waitExtrasServed("c" + strconv.FormatInt(a.C, 10))
+		}
 	case "W":
 		time.Sleep(650 * time.Millisecond)
 	case "F": // every armed gap timer fires now (hook); wait until the owners have reacted
@@ -221,7 +291,7 @@ func (e *Env) apply(a Action) {
 // server, then a forced common and per-channel difference fetch, twice.
 func (s Scenario) FinalActions() []Action {
 	fin := []Action{{Op: "e", N: len(s.Log)}}
-	cs := NewWorld(nil, 0, 0, s.C0).Channels()
+	cs := s.channels()
 	for round := 0; round < 2; round++ {
 		fin = append(fin, Action{Op: "T"})
 		for _, c := range cs {
@@ -233,8 +303,18 @@ func (s Scenario) FinalActions() []Action {
 
 // Run executes the scenario against a fresh manager started from `from` (nil = the scenario's
 // initial persisted state). emitAll starts with the whole log already emitted (restart runs).
-func (s Scenario) Run(from *Snapshot, emitAll bool, actions []Action) Outcome {
+// known: late channels whose access hash is known from the start (restart runs).
+func (s Scenario) Run(from *Snapshot, emitAll bool, actions []Action, known map[int64]bool) Outcome {
 	w := NewWorld(s.Log, s.P0, s.Q0, s.C0)
+	for c := range s.Fresh {
+		w.Fresh[c] = true
+	}
+	for c := range s.Late {
+		w.Late[c] = true
+	}
+	for c := range known {
+		w.Known[c] = true
+	}
 	if emitAll {
 		w.Emitted = len(w.Log)
 	}
@@ -258,6 +338,9 @@ func (s Scenario) Run(from *Snapshot, emitAll bool, actions []Action) Outcome {
 		}
 	}
 	out.Elapsed = time.Since(t0)
+	if live, started := w.LiveChannels(), w.StartedChannels(); e.Err == "" && fmt.Sprint(live) != fmt.Sprint(started) {
+		out.Workers = fmt.Sprintf("channels loaded or met with a known access hash: %v; channels the manager started a worker for: %v", live, started)
+	}
 	// the trace up to here is what the monitors look at; shutdown may flush more
 	out.Trace, out.Snaps = e.Trace()
 	e.Stop()
@@ -337,19 +420,7 @@ func CheckC03(w *World, trace []Event, from Snapshot) []Violation {
 	dispatched := map[int]bool{}
 	tooLong := map[string]bool{}
 	lastAPI := map[string]string{}
-	base := func(seq string) int {
-		switch seq {
-		case "pts":
-			return from.State.Pts
-		case "qts":
-			return from.State.Qts
-		}
-		c, _ := strconv.ParseInt(seq[1:], 10, 64)
-		if p, ok := from.Chans[c]; ok {
-			return p
-		}
-		return initialOf(w, seq)
-	}
+	base := func(seq string) int { return baseOf(w, from, seq) }
 	// which difference answers have been handed out so far (answers are served in request order)
 	carried := map[int]bool{}
 	servedIdx := map[string]int{}
@@ -386,6 +457,10 @@ func CheckC03(w *World, trace []Event, from Snapshot) []Violation {
 			}
 			if cl := classify(w, en); cl != "" {
 				key = "c03-" + cl
+			}
+			// the state written when a channel is met for the first time (before its worker has asked for anything)
+			if _, met := w.Created[chanOfSeq(seq)]; met && servedIdx[seq] == 0 {
+				key = "c03-initial-channel-state-ahead"
 			}
 			// a store right after a tooLong answer, before the callback
 			if servedTooLong(w, seq, val) && classify(w, en) == "" {
@@ -473,17 +548,7 @@ func CheckC02(w *World, trace []Event, pushedPlain map[int]bool, alreadyDelivere
 			}
 			continue
 		}
-		base := initialOf(w, en.Seq())
-		switch en.Seq() {
-		case "pts":
-			base = from.State.Pts
-		case "qts":
-			base = from.State.Qts
-		default:
-			if p, ok := from.Chans[en.Chan]; ok {
-				base = p
-			}
-		}
+		base := baseOf(w, from, en.Seq())
 		if alreadyDelivered == nil && en.Pos <= base {
 			continue
 		}
@@ -500,6 +565,14 @@ func CheckC02(w *World, trace []Event, pushedPlain map[int]bool, alreadyDelivere
 		}
 	}
 	return out
+}
+
+func chanOfSeq(seq string) int64 {
+	if !strings.HasPrefix(seq, "c") {
+		return -1
+	}
+	c, _ := strconv.ParseInt(seq[1:], 10, 64)
+	return c
 }
 
 // carriedAnywhere: some difference answer carried the entry.
@@ -548,18 +621,7 @@ func CheckDuplicates(w *World, trace []Event) []Violation {
 func CheckOrder(w *World, trace []Event, from Snapshot) []Violation {
 	dispatched := map[int]bool{}
 	tooLong := map[string]bool{}
-	base := func(en Entry) int {
-		switch en.Seq() {
-		case "pts":
-			return from.State.Pts
-		case "qts":
-			return from.State.Qts
-		}
-		if p, ok := from.Chans[en.Chan]; ok {
-			return p
-		}
-		return initialOf(w, en.Seq())
-	}
+	base := func(en Entry) int { return baseOf(w, from, en.Seq()) }
 	for i, ev := range trace {
 		switch ev.Kind {
 		case "L":
